@@ -96,6 +96,7 @@ _place_cache = {}
 
 def parse_place(s, locals_ty=None):
     s = s.strip()
+    if s.startswith('(fake) '): s = s[7:].strip()
     key = s
     hit = _place_cache.get(key)
     if hit is not None and locals_ty is None:
@@ -143,9 +144,12 @@ def parse_place(s, locals_ty=None):
                 m = re.match(r'^(-?)(\d+) of (\d+)$', inner)
                 if m: projs.append(('constidx', int(m.group(2)), m.group(1) == '-'))
                 else:
-                    m = re.match(r'^(\d+)\.\.(-?)(\d*)$', inner) or re.match(r'^(\d+):(-)(\d+)$', inner)
-                    if not m: raise MirSyntaxError('place index: ' + s)
-                    projs.append(('subslice', int(m.group(1)), int(m.group(3)) if m.group(3) else None, m.group(2) == '-'))
+                    m = re.match(r'^(\d+)\.\.(-?)(\d*)$', inner)
+                    if m: projs.append(('subslice', int(m.group(1)), int(m.group(3)) if m.group(3) else None, m.group(2) == '-'))
+                    else:
+                        m = re.match(r'^(\d*):(-?)(\d*)$', inner)          # from_end forms: [f:-t]  [f:]  [:-t]
+                        if not m: raise MirSyntaxError('place index: ' + s)
+                        projs.append(('subslice', int(m.group(1) or 0), int(m.group(3) or 0), True))
             ty = None; i = j + 1
         else:
             raise MirSyntaxError('place suffix: ' + s + ' @' + str(i))
